@@ -1,5 +1,6 @@
 import Rbdl
 import Rbdl.AlgDriver
+import Rbdl.GeomDriver
 /-
   Line-protocol driver of the executable model (`rbdl_model`): reads the same case file as the
   C++ harness (`harness/driver.cc`) from stdin, executes every operation over exact rationals
@@ -140,6 +141,7 @@ structure DS where
   /-- which of the position / velocity / acceleration caches are known to describe the current
       state (bit 0, 1, 2): set by UK / UKC, cleared by everything that may touch state or workspace -/
   kfresh : Nat := 0
+  geo : GeomDriver.GS := {}
 
 def DS.fresh (id : String) : DS :=
   let m : ModelS Q := ModelS.init
@@ -802,6 +804,14 @@ def step0 (d : DS) (line : String) : DS × Option String :=
         | some sp => also r d ("alg." ++ op ++ ".spec") sp
         | none => r
       (r.1, some r.2)
+    | "geo" =>
+      let (g', lines) := GeomDriver.run (fun s => (parseRat s).getD 0) d.geo rest d.impl
+      let d := { d with geo := g', impl := [] }
+      (match lines with
+       | [] => (d, none)
+       | (n, b) :: more =>
+         let r := more.foldl (fun r nb => also r d nb.1 nb.2) (out d n b)
+         (r.1, some r.2))
     | "poison" =>
       let (seed, _) := t.nat
       ({ d with w := poison d.m d.w seed }, none)
